@@ -462,6 +462,17 @@ func (o *C08) Finish(w *World) {
 		if top == 0 {
 			continue
 		}
+		// validators that ran ahead on this chain cannot vote for the skipped nonce
+		liveCh := sdk.NewIntFromBigInt(live.BigInt())
+		for _, v := range w.Vals {
+			if w.SkippedAhead[ch+"/"+v.Oper.ValAddr().String()] && !w.ByzVals[v.Oper.ValAddr().String()] {
+				liveCh = liveCh.Sub(sdk.NewInt(st.LastValidatorPower(v.Oper.ValAddr())))
+			}
+		}
+		if liveCh.MulRaw(100).LT(total.MulRaw(67)) {
+			w.St.Probe("liveness-precondition-not-met")
+			continue
+		}
 		w.St.Check("C08:liveness")
 		if top-st.LastObservedEventNonce(ch) > 60 {
 			continue // backlog larger than the settle phase can relay (8 rounds x 10 events); not judged
